@@ -100,6 +100,14 @@ def strip_lean_comments(src: str) -> str:
     return "".join(out)
 
 
+class NoTables(dict):
+    """What `Run.regenerate` returns when an extractor could not read the source: any key reads as None,
+    so that the harness code that only reports the regenerated values keeps going."""
+
+    def __missing__(self, key):
+        return None
+
+
 class Lean:
     """Build, audit and drive the Lean project."""
 
@@ -326,10 +334,10 @@ class Run:
         except Infra as e:
             self.proof_failures.append(f"extractor {getattr(fn, '__name__', fn)} could not regenerate from the current source: {e}")
             self.notes.append(f"Generated file left as it was: {e}")
-            return {}
+            return NoTables()
         except Exception as e:  # noqa
             self.proof_failures.append(f"extractor {getattr(fn, '__name__', fn)} failed on the current source: {type(e).__name__}: {e}")
-            return {}
+            return NoTables()
 
     def prove(self, modules: list[str], extra_files: list[str] = ()):
         """Build the property modules (+ driver), audit sources and axioms."""
